@@ -102,7 +102,7 @@ def make_cfg(seed, i, typ):
         # restart-heavy configurations (soft mostly): an injected linear-algebra failure in the Lagrange solve then takes the
         # soft-restart call site of whichever step asked for it (point replacement, geometry step, regression step, growing ...)
         cfg = campaign.gen_cfg(rng, restarts_p=1.0, term_p=0.0, reg_p=0.0, proj_p=0.0, maxfuns=(40, 60, 90), nmax=3, npt_p=0.5,
-                               allow=("restarts", "regression", "growing"), averaging_p=0.15, noise_p=0.2)
+                               allow=("restarts", "regression", "growing", "rare"), averaging_p=0.15, noise_p=0.2)
         n = cfg["prob"]["n"]
         if r() < 0.3 and n > 1 and cfg["args"].get("npt") in (None, n + 1) and "restarts.increase_npt" not in cfg["user_params"]:
             # growing phase with several new directions per iteration and safety steps: the restart blocks of the growing code
